@@ -2,10 +2,10 @@ package props
 
 import (
 	"errors"
-	"os/exec"
 	"fmt"
 	"io"
 	"os"
+	"os/exec"
 	"path/filepath"
 	"runtime"
 	"strings"
@@ -32,6 +32,7 @@ type failWriter struct {
 	n      int
 	failAt int
 	sticky bool
+	delay  time.Duration // the failing call takes this long to fail (a stalled device, a blocked pipe)
 	sizes  []int
 	buf    bytes.Buffer
 }
@@ -41,6 +42,11 @@ func (w *failWriter) Write(p []byte) (int, error) {
 	defer w.mu.Unlock()
 	w.n++
 	if w.failAt > 0 && (w.n == w.failAt || (w.sticky && w.n > w.failAt)) {
+		if w.delay > 0 && w.n == w.failAt {
+			w.mu.Unlock()
+			time.Sleep(w.delay)
+			w.mu.Lock()
+		}
 		return 0, errInjected
 	}
 	w.sizes = append(w.sizes, len(p))
@@ -118,7 +124,9 @@ func c19MakeEntry(r *fw.Rng, e int, variant int) c19Entry {
 			argv = append(argv, "--wrap", fmt.Sprint(wrap))
 		}
 		return c19Entry{name: name, argv: argv, files: map[string]string{"in.sam": sf.Text},
-			call: func(w io.Writer) error { return sam.ToMultiAlign(strings.NewReader(sf.Text), w, wrap, -1, -1, false, 2) }}
+			call: func(w io.Writer) error {
+				return sam.ToMultiAlign(strings.NewReader(sf.Text), w, wrap, -1, -1, false, 2)
+			}}
 	case 2, 3:
 		ac := mkAnno("sam")
 		agg := e == 3
@@ -311,13 +319,24 @@ func runC19(c *fw.Ctx, idx int) fw.Result {
 			repeats = 6
 		}
 		for kk := 1; kk <= W; kk++ {
-			for rep := 0; rep < 2*repeats; rep++ {
+			nrep := 2 * repeats
+			if kk == 1 || kk == W || kk == (W+1)/2 {
+				nrep += 2 // header, middle and last write also fail slowly
+			}
+			for rep := 0; rep < nrep; rep++ {
 				sticky := rep%2 == 1
 				fwr := &failWriter{failAt: kk, sticky: sticky}
+				if rep >= 2*repeats {
+					fwr.delay = 30 * time.Millisecond
+					res.Count("slow_faults_injected", 1)
+				}
 				err, hung, verdict, dump := callWithWatchdog(func() error { return en.call(fwr) })
 				res.Evals++
 				res.Count("faults_injected", 1)
 				mode := map[bool]string{false: "one-shot", true: "sticky"}[sticky]
+				if fwr.delay > 0 {
+					mode += ", failing after 30 ms"
+				}
 				res.Sig(fmt.Sprintf("%s|%d|%d|%s|%d", en.name, variant, kk, mode, rep/2))
 				argv := append([]string{en.name}, fmt.Sprintf("fail Write call %d of %d (%s)", kk, W, mode))
 				where := "row"
